@@ -11,7 +11,7 @@
 From Coq Require Import Permutation.
 From HpoV Require Import Gen.Consts Model.Base Model.Group Model.Onto Model.Binary Proofs.BinaryP Proofs.DecodeP
   Proofs.ClosureP Proofs.AcyclicP Proofs.DistP Proofs.RecordsP Proofs.SectionP Proofs.RoundTripP Proofs.AnnotP Proofs.ReloadP Proofs.C16M
-  Proofs.DecodeAnyP Proofs.DecodeOrderP Proofs.DecodeGP.
+  Proofs.DecodeAnyP Proofs.DecodeOrderP Proofs.DecodeGP Proofs.LayoutV2P.
 
 (* any accepted file followed by any non-empty suffix is rejected with ParseBinaryError *)
 Theorem C08_every_extension_rejected : forall icf f s o, decode icf f = Ok o -> s <> [] ->
@@ -94,6 +94,34 @@ Proof. exact decode_any_example. Qed.
 Theorem C08_guarded_evaluator_is_decode : forall icf input, decode_g icf input = decode icf input.
 Proof. exact decode_g_eq. Qed.
 
+(* LAYOUTS v2 AND v1 (Proofs/LayoutV2P.v).  The crate writes only v3; [layout_v2] and [layout_v1] are the
+   documented older layouts (v2: magic, version byte 2, release, four sections - no ORPHA; v1: no magic, no
+   release, term records without flag and replacement).  For every ontology the layout can carry, from_bytes
+   on such a file is the Builder pipeline on exactly the facts the file holds. *)
+Theorem C08_layout_v2_is_honoured : forall icf order o, file_ok order o -> order (o_orpha o) = [] ->
+  decode icf (layout_v2 order o) = rebuild icf order o.
+Proof. exact decode_layout_v2_is_rebuild. Qed.
+
+Theorem C08_layout_v2_decodes_like_v3 : forall icf order o, file_ok order o -> order (o_orpha o) = [] ->
+  decode icf (layout_v2 order o) = decode icf (encode_with order o).
+Proof. exact layout_v2_decodes_like_v3. Qed.
+
+Theorem C08_layout_v1_is_honoured : forall icf order o, file_ok_v1 order o ->
+  decode icf (layout_v1 order o) = rebuild_v1 icf order o.
+Proof. exact decode_layout_v1_is_rebuild. Qed.
+
+Theorem C08_layout_v1_is_v3_without_flags : forall icf order o, order [] = [] ->
+  rebuild_v1 icf order o = rebuild icf order (as_v1 o).
+Proof. exact rebuild_v1_is_rebuild_of_plain. Qed.
+
+Theorem C08_layout_v1_satisfiable :
+  let t1 := mkTerm 1 [65] [] [] [118] [7] [3] [] (0, 0, 0) false None in
+  let t2 := mkTerm 118 [66; 195; 182] [1] [1] [] [7] [3] [] (0, 0, 0) false None in
+  let o := mkOnto (mkArena (new_term [] 0) [t1; t2]) [mkAnnot 7 [103] [118]] [mkAnnot 3 [100] [118]] [] (0, 0, 0) [] [] in
+  file_ok_v1 (fun l => l) o /\
+  (exists r, decode (fun _ _ => Ok 0) (layout_v1 (fun l => l) o) = Ok r /\ map t_id (ar_terms (o_arena r)) = [1; 118]).
+Proof. exact file_ok_v1_example. Qed.
+
 Print Assumptions C08_every_extension_rejected.
 Print Assumptions C08_every_proper_prefix_rejected.
 Print Assumptions C08_short_rejected.
@@ -105,3 +133,8 @@ Print Assumptions C08_record_order_irrelevant.
 Print Assumptions C08_accepted_file_reserialises.
 Print Assumptions C08_conditions_satisfiable.
 Print Assumptions C08_guarded_evaluator_is_decode.
+Print Assumptions C08_layout_v2_is_honoured.
+Print Assumptions C08_layout_v2_decodes_like_v3.
+Print Assumptions C08_layout_v1_is_honoured.
+Print Assumptions C08_layout_v1_is_v3_without_flags.
+Print Assumptions C08_layout_v1_satisfiable.
